@@ -52,7 +52,7 @@ type genCfg struct {
 	portionVars            bool
 	varBounds              bool // overdraft bounds may be arbitrary monetary expressions (front-end corpora)
 	deepInfix              bool // chains of several + / - (left-nested)
-	worldVars              bool // account variables may be valued "world" (fixed-amount sends only)
+	worldVars              bool // account variables may be valued "world"
 }
 
 type gen struct {
@@ -219,7 +219,7 @@ func (g *gen) src(asset string, d int, ctx *srcCtx, sendAll bool, capped bool) J
 			name = pick(r, c.accts)
 			e = eAcct(name)
 		}
-		if isVarWorld && !c.unspecified && (sendAll || !c.worldVars) {
+		if isVarWorld && !c.unspecified && !c.worldVars {
 			name = pick(r, c.accts)
 			e = eAcct(name)
 		}
@@ -582,6 +582,7 @@ func corpusCfg(name string) genCfg {
 		base.infix = true
 		base.origins = true
 		base.unspecified = true
+		base.worldVars = true
 		base.portionVars = true
 		base.srcDepth, base.dstDepth = 3, 2
 	case "multi": // C01 C09: several statements, saves, no balance()-style origins
